@@ -143,7 +143,13 @@ impl Expression for Op {
                     .lhs
                     .resolve(ctx)?
                     .try_or(|| self.rhs.resolve(ctx))
-                    .map_err(Into::into);
+                    .map_err(|err| match err {
+                        // `abort` and `return` in the right operand keep their meaning
+                        ValueError::Or(
+                            inner @ (ExpressionError::Abort { .. } | ExpressionError::Return { .. }),
+                        ) => inner,
+                        err => err.into(),
+                    });
             }
             And => {
                 return match self.lhs.resolve(ctx)? {
